@@ -16,7 +16,7 @@ import common as C
 TIERS = {
     # MC cfg, sample (every n-th fast-path-ok case is re-validated by TLC anyway), random events, tlc timeout
     "quick": dict(cfg="MC_XPath_quick.cfg", sample=40, rnd=1500, groups=400, timeout=900),
-    "thorough": dict(cfg="MC_XPath_thorough.cfg", sample=200, rnd=20000, groups=5000, timeout=3000),
+    "thorough": dict(cfg="MC_XPath_thorough.cfg", sample=300, rnd=60000, groups=12000, timeout=3000),
 }
 
 
